@@ -1,5 +1,8 @@
 import Exetera.Props.C19
 import Exetera.Lemmas.GenKernelsJoinFlat
+import Exetera.Lemmas.GenKernelsJoinSize
+import Exetera.Lemmas.GenKernelsJoinInnerLU
+import Exetera.Lemmas.GenKernelsJoinInnerG
 /-!
   C19 over the TRANSLATED flat left-map kernels (`Gen/Kernels.lean`, regenerated from operations.py by tools/translate_njit.py on
   every run): `generate_ordered_map_to_left_both_unique`, `generate_ordered_map_to_left_right_unique`,
@@ -62,5 +65,56 @@ theorem gen_inner_map_both_unique_flat_eq {L R : List Int} (l2i r2i : List Int) 
   inner_map_both_unique_flat_ok L R l2i r2i _ fuel hf (C19.inner_map_both_unique_flat_eq l2i r2i hL hR hl hr)
 
 example : ordered_inner_map_both_unique.run [1, 3, 5] [3, 4, 5] [9, 9, 9] [8, 8] 6 = .ok ([1, 2, 9], [0, 2]) := rfl
+
+/-! ## ordered_inner_map_result_size (outer `while`, two run-counting `while` loops with subscripting conditions) -/
+
+theorem gen_inner_result_size_ok (left right : List Int) (r fuel : Nat) (hfuel : left.length + right.length ≤ fuel)
+    (h : innerResultSize left right = .ok r) :
+    ordered_inner_map_result_size.run left right fuel = .ok (r : Int) :=
+  ordered_inner_map_result_size_ok left right r fuel hfuel h
+
+/-- the statement of `C19.inner_result_size_eq` for the translated kernel: on sorted keys it returns normally (no subscript out of
+    range or negative, all three loops finish within `len(left) + len(right)` steps) the number of matching pairs -/
+theorem gen_inner_result_size_eq {L R : List Int} (hL : Sorted L) (hR : Sorted R) (fuel : Nat) (hfuel : L.length + R.length ≤ fuel) :
+    ordered_inner_map_result_size.run L R fuel = .ok (((innerJoin L R).length : Nat) : Int) :=
+  ordered_inner_map_result_size_ok L R _ fuel hfuel (C19.inner_result_size_eq hL hR)
+
+example : ordered_inner_map_result_size.run [1, 1, 2, 4, 4, 5] [1, 2, 2, 4, 6] 11 = .ok 6 := by decide
+
+/-! ## ordered_inner_map_left_unique / ordered_inner_map (run-counting `while` loops, the block written by `for` loops) -/
+
+theorem gen_inner_map_left_unique_flat_ok (left right l2i r2i : List Int) (r : List Int × List Int) (fuel : Nat)
+    (hf : left.length + right.length ≤ fuel) (h : orderedInnerMap false true left right l2i r2i = .ok r) :
+    ordered_inner_map_left_unique.run left right l2i r2i fuel = .ok r :=
+  inner_map_left_unique_flat_ok left right l2i r2i r fuel hf h
+
+theorem gen_inner_map_flat_ok (left right l2i r2i : List Int) (r : List Int × List Int) (fuel : Nat)
+    (hf : left.length + right.length ≤ fuel) (h : orderedInnerMap true true left right l2i r2i = .ok r) :
+    ordered_inner_map.run left right l2i r2i fuel = .ok r :=
+  inner_map_flat_ok left right l2i r2i r fuel hf h
+
+/-- duplicate-free left column, arrays at least as long as the join: the translated `ordered_inner_map_left_unique` returns normally
+    and the two arrays list exactly the matching pairs in (left, right) order, the rest of the arrays untouched -/
+theorem gen_inner_map_left_unique_flat_eq {L R : List Int} (l2i r2i : List Int) (hL : L.Pairwise (· < ·)) (hR : Sorted R)
+    (hl : (innerJoin L R).length ≤ l2i.length) (hr : (innerJoin L R).length ≤ r2i.length)
+    (fuel : Nat) (hf : L.length + R.length ≤ fuel) :
+    ordered_inner_map_left_unique.run L R l2i r2i fuel =
+      .ok ((encodeInner (innerJoin L R)).1 ++ l2i.drop (innerJoin L R).length,
+           (encodeInner (innerJoin L R)).2 ++ r2i.drop (innerJoin L R).length) :=
+  inner_map_left_unique_flat_ok L R l2i r2i _ fuel hf (C19.inner_map_left_unique_flat_eq l2i r2i hL hR hl hr)
+
+/-- the general kernel (both columns may repeat), same statement -/
+theorem gen_inner_map_flat_eq {L R : List Int} (l2i r2i : List Int) (hL : Sorted L) (hR : Sorted R)
+    (hl : (innerJoin L R).length ≤ l2i.length) (hr : (innerJoin L R).length ≤ r2i.length)
+    (fuel : Nat) (hf : L.length + R.length ≤ fuel) :
+    ordered_inner_map.run L R l2i r2i fuel =
+      .ok ((encodeInner (innerJoin L R)).1 ++ l2i.drop (innerJoin L R).length,
+           (encodeInner (innerJoin L R)).2 ++ r2i.drop (innerJoin L R).length) :=
+  inner_map_flat_ok L R l2i r2i _ fuel hf (C19.inner_map_flat_eq l2i r2i hL hR hl hr)
+
+example : ordered_inner_map.run [1, 1, 2, 4, 4, 5] [1, 2, 2, 4, 6] [9, 9, 9, 9, 9, 9, 9] [8, 8, 8, 8, 8, 8] 11
+    = .ok ([0, 1, 2, 2, 3, 4, 9], [0, 0, 1, 2, 3, 3]) := rfl
+example : ordered_inner_map_left_unique.run [1, 2, 4] [1, 2, 2, 4, 6] [9, 9, 9, 9, 9] [8, 8, 8, 8] 8
+    = .ok ([0, 1, 1, 2, 9], [0, 1, 2, 3]) := rfl
 
 end Exetera.Props.C19Gen
